@@ -89,7 +89,7 @@ func init() {
 			return maxLen, lines, true
 		}
 		m1, _, ok1 := session(in["first"], 100)
-		m2, lines2, ok2 := session("", 1500)
+		m2, lines2, ok2 := session(in["second"], 1500) // (a 005 that says nothing about lengths, or none at all)
 		if !ok1 || !ok2 {
 			c.R.Mismatch("linelenreconnect.session", hin, fmt.Sprintf("ok1=%v ok2=%v", ok1, ok2), "")
 			return
@@ -104,6 +104,6 @@ func init() {
 				break
 			}
 		}
-		c.R.Count("linelenreconnect/"+in["first"], true, "linelen-reconnect")
+		c.R.Count("linelenreconnect/"+in["first"]+"/"+in["second"], true, "linelen-reconnect")
 	}
 }
